@@ -1,4 +1,9 @@
 package main
 
 // extraGens is extended as more generated pieces are added.
-func extraGens() {}
+func extraGens() {
+	genC10()
+	genC03()
+	genC15()
+	genC12()
+}
